@@ -160,7 +160,9 @@ def run_layouts(job, layouts, rng, graph=False):
     findings = []
     for k, (a, b) in enumerate(zip(args, before_a)):
         if isinstance(a, np.ndarray):
-            d = diff_array(b, snap_array(a), exempt_content=(job.get("exempt") == k))
+            # the in-place exemption of the *_at target applies to executing calls only: a graph=True request returns
+            # source text and must leave every argument untouched
+            d = diff_array(b, snap_array(a), exempt_content=(job.get("exempt") == k and not graph))
         else:
             d = [] if snap_value(a) == b else ["value"]
         if d:
